@@ -1,0 +1,37 @@
+//go:build verif
+
+package iobroker
+
+/*
+ * verif_on.go
+ * Verification hooks, only built with -tags verif
+ */
+
+import "context"
+
+// VerifHook, if not nil, is called at the named points of connect: "admit"
+// (before the admission section is entered), "admitted" (after a successful
+// admission unlocked the broker), "release" (before the release section is
+// entered) and "done" (after the final unlock, whether refused or released).
+// The hook may block.
+var VerifHook func(ctx context.Context, point string, dir string, key string)
+
+// verifPoint calls VerifHook, if set.
+func verifPoint(ctx context.Context, point string, dir sDirection, key string) {
+	if f := VerifHook; nil != f {
+		f(ctx, point, string(dir), key)
+	}
+}
+
+// VerifState returns the broker's private state.  If the broker's lock is
+// held, locked is true and the other values are meaningless.
+func (b *Broker) VerifState() (key string, in, out, noMore, locked bool) {
+	if !b.mu.TryLock() {
+		return "", false, false, false, true
+	}
+	defer b.mu.Unlock()
+	return b.key, nil != b.cancelIn, nil != b.cancelOut, b.noMore, false
+}
+
+// VerifIsBidirKey reports whether key is b's bidirectional sentinel key.
+func (b *Broker) VerifIsBidirKey(key string) bool { return key == b.bidirKey }
